@@ -118,8 +118,17 @@ def run_case(c):
             if got != exp:
                 missing, extra = sorted(exp - got, key=repr), sorted(got - exp, key=repr)
                 mech = None
-                if missing and not extra:
-                    # counterfactual: with a higher process-wide cap the omitted options appear -> known mechanism
+                # Several known mechanisms may act at once; EVERY missing and EVERY extra option must be explained:
+                # (a) counterfactual: with a higher process-wide cap omitted options appear (and nothing else changes);
+                # (b) one forecast entry per (sender, message type): the same type offered to another recipient at the same
+                #     point is folded into the first entry -> an omitted option has an offered twin (same sender, same type,
+                #     other recipient);
+                # (c) a (deliberately wrong) automaton in which an entered repetition iteration may be abandoned mid-way
+                #     explains extra options.
+                parts = []
+                rem_missing = list(missing)
+                rem_extra = list(extra)
+                if rem_missing:
                     now = fnodes.MAX_REPETITIONS
                     try:
                         fnodes.MAX_REPETITIONS = now + 50
@@ -129,22 +138,25 @@ def run_case(c):
                         got2 = None
                     finally:
                         fnodes.MAX_REPETITIONS = now
-                    if got2 is not None and got2 == exp:
-                        mech = "open-ended-repetition-at-global-cap"
-                if missing and not extra and mech is None:
-                    # one forecast entry per (sender, message type): the same type offered to another recipient at the same
-                    # point is folded into the first entry.  Every omitted option then has an offered twin (same sender,
-                    # same type, other recipient).
-                    if all(any(o[0] == m_[0] and o[2] == m_[2] and o[1] != m_[1] for o in got) for m_ in missing):
-                        mech = "same-type-same-sender-recipients-merged"
-                if extra and not missing and letters:
-                    # attribution: a (deliberately wrong) automaton in which an entered repetition iteration may be
-                    # abandoned mid-way explains exactly these extra options
+                    if got2 is not None and (got2 - exp) <= (got - exp):
+                        by_cap = [m_ for m_ in rem_missing if m_ in got2]
+                        if by_cap:
+                            parts.append("open-ended-repetition-at-global-cap")
+                            rem_missing = [m_ for m_ in rem_missing if m_ not in got2]
+                if rem_missing:
+                    twins = [m_ for m_ in rem_missing if any(o[0] == m_[0] and o[2] == m_[2] and o[1] != m_[1] for o in got)]
+                    if twins:
+                        parts.append("same-type-same-sender-recipients-merged")
+                        rem_missing = [m_ for m_ in rem_missing if m_ not in twins]
+                if rem_extra and letters:
                     rl = R0
                     for a_ in letters:
                         rl = ma.deriv(rl, a_, lenient=True)
-                    if set(extra) <= (ma.first(rl) - exp):
-                        mech = "repetition-iteration-abandoned-midway"
+                    if set(rem_extra) <= (ma.first(rl) - exp):
+                        parts.append("repetition-iteration-abandoned-midway")
+                        rem_extra = []
+                if parts and not rem_missing and not rem_extra:
+                    mech = "+".join(parts)
                 violations.append({"what": f"after history {hist} the forecaster offers {sorted(got, key=repr)} but the grammar allows {sorted(exp, key=repr)} "
                                            f"(missing {missing}, extra {extra}); cap={fnodes.MAX_REPETITIONS}", "mech": mech, "spec": text, "parties": parties})
             if hist and comp != ma.nullable(r):
